@@ -143,8 +143,52 @@ func vh_C04_assign() {
 	}
 }
 
-var vhRegistry = map[string]func(){"vh_C04_assign": vh_C04_assign}
+// "return e1, ..., en" in a function with n results: the results are the
+// values the operands had before the statement, also when the operands are
+// the (named) result variables themselves ("return b, a").
+// Real code: the _return generator and the closure it installs. The result
+// variables are frame slots 0..n-1, other variables slots n..3; each operand is
+// any of the four slots.
+var vhNRet = 2
 
-var vhIntVars = map[string]*int{"vhNAssign": &vhNAssign, "vhDefine": &vhDefine, "vhSlotArr": &vhSlotArr}
+func vh_C04_return() {
+	vhResetClock()
+	vhStopAt = -1
+	i := vhNewInterp()
+	intT := &itype{cat: intT, rtype: vTypeOfKind(int(reflect.Int))}
+	const m = 4
+	f := newFrame(i.frame, m, i.runid())
+	var old [m]int64
+	for k := 0; k < m; k++ {
+		old[k] = vNondetInt64("slot")
+		vAssume(old[k] > -1000 && old[k] < 1000)
+		f.data[k] = reflect.New(intT.rtype).Elem()
+		f.data[k].SetInt(old[k])
+	}
+	def := &node{interp: i, kind: funcDecl, typ: &itype{cat: funcT}}
+	n := &node{interp: i, kind: returnStmt, val: def}
+	var src [3]int
+	for k := 0; k < vhNRet; k++ {
+		def.typ.ret = append(def.typ.ret, intT)
+		src[k] = vConcretizeInt(vNondetInt("src"), 0, m-1)
+		n.child = append(n.child, &node{interp: i, kind: identExpr, findex: src[k], typ: intT, anc: n, ident: "s"})
+	}
+	_return(n)
+	vReach("C04.return")
+	if n.exec != nil {
+		n.exec(f)
+	}
+	ok := true
+	for k := 0; k < vhNRet; k++ {
+		if f.data[k].Int() != old[src[k]] {
+			ok = false
+		}
+	}
+	vAssert("C04.return.simultaneous", ok)
+}
+
+var vhRegistry = map[string]func(){"vh_C04_assign": vh_C04_assign, "vh_C04_return": vh_C04_return}
+
+var vhIntVars = map[string]*int{"vhNAssign": &vhNAssign, "vhDefine": &vhDefine, "vhSlotArr": &vhSlotArr, "vhNRet": &vhNRet}
 
 var vhScenarios = map[string]func(map[string]string) bool{}
